@@ -19,6 +19,7 @@ import (
 	"fmt"
 	"math/rand"
 	"runtime"
+	"sort"
 	"strconv"
 	"sync"
 	"time"
@@ -183,6 +184,12 @@ func main() {
 	r = harness.New("C11", "exploration",
 		"distinct = structural hash-tag class of the key (ref.KeyClass) x length bucket x valid/invalid UTF-8")
 	r.Watchdog(time.Duration(r.N(10, 120)) * time.Minute)
+	// ---- 0. the slot-tag table's FIRST use in this process comes from 16 goroutines at once ----
+	// (two outputs building their first bidirectional unit together; nothing before this line
+	// touches the table)
+	if r.WantCase("slottags-first-use") {
+		guard("slottags-first-use", slotTagsFirstUse)
+	}
 	for s := 0; s < ref.Slots; s++ {
 		whiteOf[s] = &filter.RedisKeyFilter{}
 		whiteOf[s].InsertSlotWhiteList([][]uint16{{uint16(s)}})
@@ -283,6 +290,47 @@ func guard(caseKey string, fn func()) {
 		}
 	}()
 	fn()
+}
+
+// slotTagsFirstUse: 16 goroutines, released together, each ask for every 16th slot's tag (lane i
+// starts at slot i); every answer must be a non-empty tag that hashes to the slot asked for.
+func slotTagsFirstUse() {
+	const g = 16
+	type bad struct {
+		slot int
+		tag  string
+	}
+	var mu sync.Mutex
+	var bads []bad
+	start := make(chan struct{})
+	var wg sync.WaitGroup
+	for i := 0; i < g; i++ {
+		wg.Add(1)
+		go func(i int) {
+			defer wg.Done()
+			<-start
+			for s := i; s < ref.Slots; s += g {
+				tag := checkpoint.BisyncSlotTag(uint16(s))
+				if tag == "" || ref.HashSlot([]byte("{"+tag+"}")) != s {
+					mu.Lock()
+					bads = append(bads, bad{s, tag})
+					mu.Unlock()
+				}
+			}
+		}(i)
+	}
+	close(start)
+	wg.Wait()
+	r.Eval(ref.Slots)
+	r.Count("slot_tags_asked_for_concurrently_at_first_use", ref.Slots)
+	if len(bads) > 0 {
+		sort.Slice(bads, func(a, b int) bool { return bads[a].slot < bads[b].slot })
+		b := bads[0]
+		r.Violation("SlotTag|wrong-slot|concurrent-first-use", "slottags-first-use",
+			fmt.Sprintf("%d of 16384 answers wrong when the table's first use comes from 16 goroutines at once; first: BisyncSlotTag(%d) = %q, HASH_SLOT({%s}) = %d",
+				len(bads), b.slot, b.tag, b.tag, ref.HashSlot([]byte("{"+b.tag+"}"))),
+			map[string]any{"wrong_answers": len(bads), "slot": b.slot, "tag": b.tag})
+	}
 }
 
 func slotTags() {
